@@ -1,7 +1,777 @@
-//! C04: correspondence + oracle runs (sub-commands `c04` / `c04-*`).
+//! C04 — datagrams reach exactly the listener bound to their address and port.
+//!
+//! Scenario = 1..4 machines (real Pci/Ipv4/Udp, optional Arp) on 1..2 networks with
+//! `Recorder<N>` applications that listen (exact / 0.0.0.0 / 255.255.255.255 / foreign address
+//! bindings, some deliberately duplicated, some added while traffic flows), send datagrams
+//! (payload 0..MTU-28 and one over) and inject raw frames (no binding, wrong address, malformed,
+//! unknown protocol).  The frame hook delays frames at random so arrival orders vary.
+//!
+//! Op stream per case: `cfg …` lines (the whole scenario, re-executable), then in log order
+//! `listen` / `arrive` / `inject` lines with what the real stack did, then `end` with the sorted
+//! multiset of deliveries.  The Lean model (`Model/Demux.lean`) replays the same lines.
+//! Oracle (independent of the code's lookup): own RFC-offset parse of every frame that reached a
+//! tap + own binding table → which application MUST get it, who must NOT.
+use crate::scaffold::*;
+use elvis_core::network::VerifFramePlan;
+use elvis_core::protocols::ipv4::{ipv4_parsing::{ControlFlags, Ipv4Header}, Ipv4Address};
+use elvis_core::protocols::udp::{verif::build_udp_header, UdpHeader};
 use hcommon::*;
+use std::collections::BTreeMap;
+use std::sync::{Arc, Mutex};
+use std::time::Duration;
+
+const ANY: u32 = 0;
+const BCAST: u32 = 0xffff_ffff;
+const RULE: &str = "scenario = machines x recorders x bindings x sends x injected frames; non-trivial if at least one datagram was delivered AND (two applications share a machine, or a wildcard/broadcast binding exists, or a frame reached a machine that had to drop it); distinct = hash of the cfg lines";
+
+fn own_addr(machine: usize) -> u32 {
+    u32::from_be_bytes([10, 0, (machine / 2) as u8, 1 + (machine % 2) as u8])
+}
+const FOREIGN: u32 = u32::from_be_bytes([10, 9, 9, 9]);
+
+// ------------------------------------------------------------------------------------------
+// raw frames
+// ------------------------------------------------------------------------------------------
+
+/// IPv4+UDP frame built with the code's own header builders (checksums consistent with the
+/// build's checksum feature).
+fn datagram(src: Ep, dst: Ep, payload: &[u8]) -> Vec<u8> {
+    let udp = build_udp_header(Ipv4Address::from(src.addr), src.port, Ipv4Address::from(dst.addr), dst.port, payload.iter().cloned(), payload.len()).unwrap();
+    let mut f = ip_header(src.addr, dst.addr, 17, payload.len() + 8, true);
+    f.extend_from_slice(&udp);
+    f.extend_from_slice(payload);
+    f
+}
+
+/// 20-byte IPv4 header through the code's own serialiser
+fn ip_header(src: u32, dst: u32, proto: u8, payload_len: usize, last_fragment: bool) -> Vec<u8> {
+    Ipv4Header {
+        ihl: 5,
+        type_of_service: Default::default(),
+        total_length: (payload_len + 20) as u16,
+        identification: 0,
+        fragment_offset: 0,
+        flags: ControlFlags::new(true, last_fragment),
+        time_to_live: 30,
+        protocol: proto,
+        checksum: 0,
+        source: Ipv4Address::from(src),
+        destination: Ipv4Address::from(dst),
+    }
+    .serialize()
+    .unwrap()
+}
+
+/// The oracle's own view of a frame (RFC 791 / 768 offsets; no use of the code's decoders).
+#[derive(Debug, PartialEq)]
+enum Parsed {
+    /// unfragmented IPv4/UDP datagram, lengths consistent
+    Datagram { src: Ep, dst: Ep, payload: Vec<u8> },
+    /// must be rejected by any conforming receiver of this stack (too short, not v4, options,
+    /// not UDP, a fragment, UDP length mismatch)
+    Reject(&'static str),
+    /// inconsistent in a way the property does not speak about: only isolation is checked
+    Unclear,
+}
+
+fn oracle_parse(b: &[u8]) -> Parsed {
+    if b.len() < 20 {
+        return Parsed::Reject("short-ip");
+    }
+    if b[0] >> 4 != 4 {
+        return Parsed::Reject("version");
+    }
+    if b[0] & 0xf != 5 {
+        return Parsed::Reject("ihl");
+    }
+    let frag = u16::from_be_bytes([b[6], b[7]]);
+    if frag & 0x3fff != 0 {
+        return Parsed::Reject("fragment");
+    }
+    if b[9] != 17 {
+        return Parsed::Reject("not-udp");
+    }
+    if b.len() < 28 {
+        return Parsed::Reject("short-udp");
+    }
+    let ulen = u16::from_be_bytes([b[24], b[25]]) as usize;
+    if ulen != b.len() - 20 {
+        return Parsed::Reject("udp-length");
+    }
+    let tl = u16::from_be_bytes([b[2], b[3]]) as usize;
+    let clean = tl == b.len() && b[1] & 3 == 0 && frag & 0x8000 == 0 && b[10] == 0 && b[11] == 0 && b[26] == 0 && b[27] == 0;
+    if !clean {
+        return Parsed::Unclear;
+    }
+    Parsed::Datagram {
+        src: Ep::new(u32::from_be_bytes([b[12], b[13], b[14], b[15]]), u16::from_be_bytes([b[20], b[21]])),
+        dst: Ep::new(u32::from_be_bytes([b[16], b[17], b[18], b[19]]), u16::from_be_bytes([b[22], b[23]])),
+        payload: b[28..].to_vec(),
+    }
+}
+
+/// header fields as the REAL decoders see them (input of the model, which keeps headers abstract)
+fn decode_fields(bytes: &[u8]) -> (String, String) {
+    match Ipv4Header::from_bytes(bytes.iter().cloned()) {
+        Err(_) => ("bad".into(), "-".into()),
+        Ok(h) => {
+            let ip = format!(
+                "{},{},{},{},{},{}",
+                h.ihl,
+                h.protocol,
+                h.source.to_u32(),
+                h.destination.to_u32(),
+                h.flags.is_last_fragment() as u8,
+                h.fragment_offset
+            );
+            let off = (h.ihl as usize * 4).min(bytes.len());
+            let rest = &bytes[off..];
+            let udp = match UdpHeader::from_bytes_ipv4(rest.iter().cloned(), rest.len(), h.source, h.destination) {
+                Ok(u) => format!("{},{}", u.source, u.destination),
+                Err(_) => "bad".into(),
+            };
+            (ip, udp)
+        }
+    }
+}
+
+fn fnv(b: &[u8]) -> u32 {
+    let mut h: u32 = 0x811c9dc5;
+    for x in b {
+        h ^= *x as u32;
+        h = h.wrapping_mul(0x01000193);
+    }
+    h
+}
+
+// ------------------------------------------------------------------------------------------
+// generator
+// ------------------------------------------------------------------------------------------
+
+fn gen_scenario(seed: u64) -> Scenario {
+    let mut r = Rng::new(seed);
+    let n_machines = *r.pick(&[1usize, 2, 2, 3, 3, 4]);
+    let n_nets = if n_machines >= 2 && r.chance(1, 3) { 2 } else { 1 };
+    let mt = r.chance(1, 10);
+    let mtus: [Option<u16>; 6] = [None, Some(1500), Some(576), Some(100), Some(68), Some(29)];
+    let nets: Vec<NetSpec> = (0..n_nets)
+        .map(|_| NetSpec {
+            mtu: *r.pick(&mtus),
+            lat_us: if mt { (0, 0) } else { *r.pick(&[(0, 0), (0, 0), (1000, 0), (3000, 2000)]) },
+            thr: (0, 0),
+        })
+        .collect();
+    let arp_all = !mt && r.chance(1, 3);
+    let mut machines: Vec<MachineSpec> = (0..n_machines)
+        .map(|i| {
+            let mut nets_of = vec![];
+            if n_nets == 1 || i == 0 || r.chance(2, 3) {
+                nets_of.push(0);
+            }
+            if n_nets == 2 && (nets_of.is_empty() || r.chance(1, 2)) {
+                nets_of.push(1);
+            }
+            MachineSpec { nets: nets_of, arp: if arp_all { !r.chance(1, 8) } else { false }, udp: true, tcp: false, sockets: false, routes: vec![], apps: vec![] }
+        })
+        .collect();
+    let sc0 = Scenario { nets: nets.clone(), machines: machines.clone(), mode: RtMode::Paused, duration_us: 0 };
+    let macs = sc0.macs();
+    let ports: [u16; 5] = [5000, 5001, 7, 65535, 0];
+    let addr_pool = |r: &mut Rng, me: usize| -> u32 {
+        match r.below(10) {
+            0..=3 => own_addr(me),
+            4 => own_addr(r.below(n_machines as u64) as usize),
+            5..=6 => ANY,
+            7..=8 => BCAST,
+            _ => FOREIGN,
+        }
+    };
+    // recorders and their bindings
+    let mut all_bound: Vec<Ep> = vec![];
+    for mi in 0..n_machines {
+        let n_apps = *r.pick(&[0usize, 1, 1, 2, 2, 3]);
+        let mut here: Vec<Ep> = vec![];
+        for n in 0..n_apps {
+            let mut script = vec![];
+            let n_listen = *r.pick(&[0usize, 1, 1, 2, 3]);
+            for _ in 0..n_listen {
+                let ep = if !here.is_empty() && r.chance(1, 4) {
+                    // a wildcard competing with an exact binding of the same port (or the reverse)
+                    let b = *r.pick(&here);
+                    Ep::new(if b.addr == ANY { own_addr(mi) } else { ANY }, b.port)
+                } else if !all_bound.is_empty() && r.chance(1, 4) {
+                    // provoke a rebind (same endpoint again, possibly on another machine where it is fine)
+                    *r.pick(&all_bound)
+                } else {
+                    Ep::new(addr_pool(&mut r, mi), *r.pick(&ports))
+                };
+                all_bound.push(ep);
+                here.push(ep);
+                let at = if mt || r.chance(4, 5) { None } else { Some(r.below(8) * 1000) };
+                script.push(Action { at, kind: ActionKind::Listen(ep) });
+            }
+            let echo = r.chance(1, 2);
+            machines[mi].apps.push(AppSpec { n, script, echo });
+        }
+    }
+    // routes (keyed by the sender's local address in this code base) and senders
+    let mut next_port = 40000u16;
+    for mi in 0..n_machines {
+        let slots = machines[mi].nets.len() as u32;
+        let slot = r.below(slots as u64) as u32;
+        let net = machines[mi].nets[slot as usize];
+        let peers: Vec<u64> = macs.iter().enumerate().flat_map(|(j, ms)| ms.iter().enumerate().filter(|(s, _)| machines[j].nets[*s] == net).map(|(_, m)| *m).collect::<Vec<_>>()).collect();
+        let mac = match r.below(6) {
+            0..=2 => None,
+            3..=4 => Some(*r.pick(&peers)),
+            _ => Some(77),
+        };
+        let mac = if machines[mi].arp && r.chance(2, 3) { None } else { mac };
+        if r.chance(9, 10) {
+            machines[mi].routes.push(Route { addr: 0, mask_len: 0, slot, mac });
+        }
+        if r.chance(1, 4) {
+            let s2 = r.below(slots as u64) as u32;
+            machines[mi].routes.push(Route { addr: own_addr(mi), mask_len: 32, slot: s2, mac: None });
+        }
+        let mtu = nets[net].mtu.unwrap_or(u16::MAX) as usize;
+        let n_apps = machines[mi].apps.len();
+        if n_apps == 0 {
+            continue;
+        }
+        let n_opens = *r.pick(&[0usize, 1, 1, 2, 3]);
+        for _ in 0..n_opens {
+            let app = r.below(n_apps as u64) as usize;
+            let local = Ep::new(if r.chance(5, 6) { own_addr(mi) } else { FOREIGN }, next_port);
+            next_port += 1;
+            let remote = if !all_bound.is_empty() && r.chance(3, 4) {
+                let b = *r.pick(&all_bound);
+                // a wildcard binding is reached through a concrete destination address
+                if b.addr == ANY {
+                    Ep::new(if r.chance(1, 2) { own_addr(r.below(n_machines as u64) as usize) } else { BCAST }, b.port)
+                } else if r.chance(1, 8) {
+                    Ep::new(b.addr, *r.pick(&ports))
+                } else {
+                    b
+                }
+            } else {
+                let who = r.below(n_machines as u64) as usize;
+                Ep::new(addr_pool(&mut r, who), *r.pick(&ports))
+            };
+            let remote = if remote.addr == ANY { Ep::new(own_addr(0), remote.port) } else { remote };
+            let max = mtu.saturating_sub(28).min(2000);
+            let n_p = *r.pick(&[1usize, 1, 2, 3]);
+            let payloads: Vec<Vec<u8>> = (0..n_p)
+                .map(|_| {
+                    let l = match r.below(10) {
+                        0 => 0,
+                        1 => 1,
+                        2 => max,
+                        3 => max.saturating_sub(1),
+                        4 => {
+                            if mtu < 60000 {
+                                max + 1
+                            } else {
+                                max
+                            }
+                        }
+                        _ => r.below(max as u64 + 1) as usize,
+                    };
+                    r.bytes(l)
+                })
+                .collect();
+            let at = if mt { Some(0) } else { Some(r.below(8) * 1000 + 500) };
+            let listen = !mt && r.chance(1, 8);
+            machines[mi].apps[app].script.push(Action { at, kind: ActionKind::Open { local, remote, listen, payloads } });
+        }
+    }
+    // raw frames: no binding, wrong address, malformed, unknown protocol
+    let n_inject = *r.pick(&[0usize, 1, 2, 3, 4]);
+    for _ in 0..n_inject {
+        let mi = r.below(n_machines as u64) as usize;
+        if machines[mi].apps.is_empty() {
+            continue;
+        }
+        let app = r.below(machines[mi].apps.len() as u64) as usize;
+        let slot = r.below(machines[mi].nets.len() as u64) as u32;
+        let src = Ep::new(FOREIGN, 1234);
+        let dst = if !all_bound.is_empty() && r.chance(2, 3) {
+            let b = *r.pick(&all_bound);
+            match r.below(4) {
+                0 => b,                                                      // exact hit (maybe on another machine)
+                1 => Ep::new(b.addr, b.port.wrapping_add(1)),                // right address, wrong port
+                2 => Ep::new(if b.addr == ANY { FOREIGN } else { b.addr ^ 0x100 }, b.port), // wrong address, right port
+                _ => Ep::new(own_addr(mi), b.port),
+            }
+        } else {
+            Ep::new(addr_pool(&mut r, mi), *r.pick(&ports))
+        };
+        let plen = *r.pick(&[0usize, 1, 5, 40]);
+        let payload = r.bytes(plen);
+        let mut bytes = datagram(src, dst, &payload);
+        let mut target = Target::Ipv4;
+        match r.below(12) {
+            0 => bytes.truncate(r.below(20) as usize),  // short IP header
+            1 => bytes[0] = 0x65,                       // version 6
+            2 => bytes[0] = 0x46,                       // options
+            3 => bytes.truncate(20 + r.below(8) as usize), // short UDP header
+            4 => bytes.push(0),                         // UDP length mismatch
+            5 => bytes[9] = *r.pick(&[6u8, 1, 99, 253]), // not UDP
+            6 => {
+                // a fragment: more-fragments set (flag bit 0 of ControlFlags = !is_last)
+                let ip = ip_header(src.addr, dst.addr, 17, payload.len() + 8, false);
+                bytes[..20].copy_from_slice(&ip);
+            }
+            7 => target = Target::Unknown,
+            _ => {}
+        }
+        let at = if mt { Some(0) } else { Some(r.below(9) * 1000 + 250) };
+        machines[mi].apps[app].script.push(Action { at, kind: ActionKind::Inject { slot, smac: 900 + mi as u64, dst: if r.chance(1, 2) { None } else { Some(macs[mi][slot as usize]) }, target, bytes } });
+    }
+    Scenario { nets, machines, mode: if mt { RtMode::MultiThread(*r.pick(&[2usize, 4])) } else { RtMode::Paused }, duration_us: if mt { 3_000_000 } else { 10_000_000 } }
+}
+
+// ------------------------------------------------------------------------------------------
+// executor + oracle
+// ------------------------------------------------------------------------------------------
+
+fn listen_class(result: &str) -> String {
+    match result {
+        "ok" => "ok".into(),
+        "err:Existing" | "err:Listen:Existing" => "err:existing".into(),
+        "err:Ipv4:Exists" | "err:Listen:Ipv4:Exists" => "err:ipv4-exists".into(),
+        o => o.to_string(),
+    }
+}
+
+fn inject_class(result: &str) -> &'static str {
+    match result {
+        "ok" => "ok",
+        "err:Protocol" => "no-protocol",
+        "err:Demux:MissingSession" => "missing-session",
+        "err:Demux:Header" => "header",
+        _ => "other",
+    }
+}
+
+fn execute(cfg_lines: &[String], seed: u64) -> CaseReport {
+    let mut rep = CaseReport::default();
+    for l in cfg_lines {
+        rep.line(format!("cfg {}", l), "cfg");
+    }
+    let sc = match Scenario::from_lines(cfg_lines.iter().map(|s| s.as_str())) {
+        Ok(s) => s,
+        Err(e) => {
+            rep.line("bad-scenario", e);
+            return rep;
+        }
+    };
+    let mt = sc.mode != RtMode::Paused;
+    // deterministic reordering of frames: extra delay per frame from the seeded Rng
+    let prng = Arc::new(Mutex::new(Rng::new(seed ^ 0x5eed)));
+    let planner: Option<Planner> = if mt {
+        None
+    } else {
+        Some(Arc::new(move |_w: &WireSend| {
+            let mut g = prng.lock().unwrap();
+            if g.chance(1, 3) {
+                VerifFramePlan::Delay(Duration::from_micros(g.below(6) * 700))
+            } else {
+                VerifFramePlan::Deliver
+            }
+        }))
+    };
+    let res = run_scenario_with(&sc, planner, &|i, m, log| {
+        if i == 0 {
+            m.with(Quiesce { log: log.clone(), active: mt, stable_ms: 40 })
+        } else {
+            m
+        }
+    });
+    analyse(&sc, &res, &mut rep);
+    rep
+}
+
+fn analyse(sc: &Scenario, res: &RunResult, rep: &mut CaseReport) {
+    let evs = &res.events;
+    // (net, mac) -> (machine, slot)
+    let mut tap_of: BTreeMap<(usize, u64), (usize, u32)> = BTreeMap::new();
+    for (mi, ms) in res.macs.iter().enumerate() {
+        for (s, mac) in ms.iter().enumerate() {
+            tap_of.insert((sc.machines[mi].nets[s], *mac), (mi, s as u32));
+        }
+    }
+    if res.macs != sc.macs() {
+        rep.fail(format!("tap MACs {:?} differ from the allocation order {:?}", res.macs, sc.macs()), "mac-allocation");
+    }
+    // demux events grouped by cause
+    let mut by_cause: BTreeMap<usize, Vec<&Event>> = BTreeMap::new();
+    let mut uncaused = 0;
+    for e in evs {
+        if let Ev::Demux { cause, .. } = &e.ev {
+            match cause {
+                Some(c) => by_cause.entry(*c).or_default().push(e),
+                None => uncaused += 1,
+            }
+        }
+    }
+    if uncaused > 0 {
+        rep.fail(format!("{} demux calls on recorders outside any tap delivery", uncaused), "demux-without-arrival");
+    }
+    let inject_result: BTreeMap<usize, String> = evs.iter().filter_map(|e| if let Ev::InjectResult { cause, result } = &e.ev { Some((*cause, result.clone())) } else { None }).collect();
+    // oracle state: bindings per machine, as the PROPERTY prescribes them
+    let mut bound: Vec<BTreeMap<Ep, usize>> = vec![BTreeMap::new(); sc.machines.len()];
+    let mut deliveries: Vec<String> = vec![];
+    let mut delivered_any = false;
+    let mut dropped_somewhere = false;
+    let fmt_demux = |e: &Event| -> String {
+        if let Ev::Demux { app, payload, local, remote, link, .. } = &e.ev {
+            format!(
+                "deliver app={} payload={} local={} remote={} slot={}",
+                Target::Rec(*app).pid(),
+                hex(payload),
+                local.map(|x| x.to_string()).unwrap_or("-".into()),
+                remote.map(|x| x.to_string()).unwrap_or("-".into()),
+                link.map(|l| l.slot.to_string()).unwrap_or("-".into())
+            )
+        } else {
+            String::new()
+        }
+    };
+    for e in evs {
+        match &e.ev {
+            Ev::Listen { machine, app, ep, result } => {
+                let cls = listen_class(result);
+                rep.line(format!("listen {} {} {} {}", machine, Target::Rec(*app).pid(), ep.addr, ep.port), cls.clone());
+                rep.count(format!("listen.{}", cls));
+                // property: a second attempt to bind an endpoint already bound on the same machine is refused
+                let already = bound[*machine].contains_key(ep);
+                if already && cls == "ok" {
+                    rep.fail(format!("machine {}: second bind of {} by app {} was accepted", machine, ep, app), "rebind-accepted");
+                } else if !already && cls != "ok" {
+                    rep.fail(format!("machine {}: first bind of {} by app {} was refused ({})", machine, ep, app, result), "first-bind-refused");
+                }
+                if !already {
+                    bound[*machine].insert(*ep, *app);
+                }
+                if ep.addr == ANY {
+                    rep.count("bind.wildcard");
+                } else if ep.addr == BCAST {
+                    rep.count("bind.broadcast");
+                } else {
+                    rep.count("bind.specific");
+                }
+            }
+            Ev::Wire { to: Some(_), target: Target::Arp, .. } => rep.count("arrivals.arp"),
+            _ => {}
+        }
+        let arrival: Option<(bool, usize, u32, Target, &Vec<u8>)> = match &e.ev {
+            Ev::Wire { net, to: Some(mac), target, bytes, .. } if matches!(target, Target::Ipv4 | Target::Unknown) => match tap_of.get(&(*net, *mac)) {
+                Some((mi, slot)) => Some((false, *mi, *slot, *target, bytes)),
+                None => {
+                    rep.fail(format!("frame delivered to MAC {} which is no tap of network {}", mac, net), "deliver-to-unknown-tap");
+                    None
+                }
+            },
+            Ev::Inject { machine, slot, target, bytes, .. } => Some((true, *machine, *slot, *target, bytes)),
+            _ => None,
+        };
+        if let Some((is_inject, mi, slot, target, bytes)) = arrival {
+            {
+                let (ipf, udpf) = decode_fields(bytes);
+                let op = format!(
+                    "{} {} slot={} tgt={} ip={} udp={} bytes={}",
+                    if is_inject { "inject" } else { "arrive" },
+                    mi,
+                    slot,
+                    target.pid(),
+                    ipf,
+                    udpf,
+                    hex(bytes)
+                );
+                let ds: Vec<&Event> = by_cause.get(&e.id).cloned().unwrap_or_default();
+                let mut line = if ds.is_empty() { "none".to_string() } else { ds.iter().map(|d| fmt_demux(d)).collect::<Vec<_>>().join(" | ") };
+                if is_inject && ds.is_empty() {
+                    line = format!("none:{}", inject_class(inject_result.get(&e.id).map(|s| s.as_str()).unwrap_or("?")));
+                }
+                rep.line(op, line);
+                rep.count(if is_inject { "arrivals.injected" } else { "arrivals.wire" });
+                // ---- property oracle ----
+                let parsed = if target == Target::Ipv4 { oracle_parse(bytes) } else { Parsed::Reject("unknown-protocol") };
+                let got: Vec<(usize, Vec<u8>, Option<Ep>, Option<Ep>)> = ds
+                    .iter()
+                    .filter_map(|d| if let Ev::Demux { app, payload, local, remote, .. } = &d.ev { Some((*app, payload.clone(), *local, *remote)) } else { None })
+                    .collect();
+                match &parsed {
+                    Parsed::Datagram { src, dst, payload } => {
+                        let exact = bound[mi].get(dst).copied();
+                        let wild = bound[mi].get(&Ep::new(ANY, dst.port)).copied();
+                        let must = exact.or(wild);
+                        rep.count(match (exact, wild) {
+                            (Some(_), Some(_)) => "case.exact-over-wildcard",
+                            (Some(_), None) => "case.exact",
+                            (None, Some(_)) => "case.wildcard",
+                            (None, None) => "case.unbound",
+                        });
+                        match must {
+                            Some(app) => {
+                                delivered_any = true;
+                                if got.len() != 1 || got[0].0 != app {
+                                    let who: Vec<usize> = got.iter().map(|g| g.0).collect();
+                                    let kind = if exact.is_some() && got.iter().any(|g| Some(g.0) == wild) { "wildcard-beat-exact" } else if got.is_empty() { "not-delivered" } else { "wrong-listener" };
+                                    rep.fail(format!("machine {}: datagram {} -> {} must go to app {} (exact {:?}, wildcard {:?}) but went to {:?}", mi, src, dst, app, exact, wild, who), kind);
+                                } else {
+                                    if &got[0].1 != payload {
+                                        rep.fail(format!("machine {}: datagram {} -> {} payload {} arrived as {}", mi, src, dst, hex(payload), hex(&got[0].1)), "payload-changed");
+                                    }
+                                    if got[0].3 != Some(*src) {
+                                        rep.fail(format!("machine {}: datagram from {} reported remote endpoint {:?}", mi, src, got[0].3), "source-wrong");
+                                    }
+                                    if got[0].2 != Some(*dst) {
+                                        rep.fail(format!("machine {}: datagram to {} reported local endpoint {:?}", mi, dst, got[0].2), "local-wrong");
+                                    }
+                                }
+                            }
+                            None => {
+                                dropped_somewhere = true;
+                                if !got.is_empty() {
+                                    rep.fail(format!("machine {}: datagram {} -> {} has no binding here but was delivered to app {:?}", mi, src, dst, got.iter().map(|g| g.0).collect::<Vec<_>>()), "unbound-delivered");
+                                }
+                            }
+                        }
+                    }
+                    Parsed::Reject(why) => {
+                        rep.count(format!("case.reject.{}", why));
+                        dropped_somewhere = true;
+                        if !got.is_empty() {
+                            rep.fail(format!("machine {}: frame that is no UDP datagram ({}) was delivered to app {:?}", mi, why, got.iter().map(|g| g.0).collect::<Vec<_>>()), format!("malformed-delivered {}", why));
+                        }
+                    }
+                    Parsed::Unclear => {
+                        rep.count("case.unclear");
+                        // isolation only: whoever got it must own (dst, port) or (0.0.0.0, port)
+                        if bytes.len() >= 28 {
+                            let dst = Ep::new(u32::from_be_bytes([bytes[16], bytes[17], bytes[18], bytes[19]]), u16::from_be_bytes([bytes[22], bytes[23]]));
+                            for g in &got {
+                                let ok = bound[mi].get(&dst) == Some(&g.0) || bound[mi].get(&Ep::new(ANY, dst.port)) == Some(&g.0);
+                                if !ok {
+                                    rep.fail(format!("machine {}: frame to {} delivered to app {} which holds no such binding", mi, dst, g.0), "wrong-listener");
+                                }
+                            }
+                        }
+                    }
+                }
+                for d in &ds {
+                    if let Ev::Demux { app, payload, local, remote, .. } = &d.ev {
+                        deliveries.push(format!(
+                            "m{}/a{}/{}/{}/{}/{:08x}",
+                            mi,
+                            Target::Rec(*app).pid(),
+                            local.map(|x| x.to_string()).unwrap_or("-".into()),
+                            remote.map(|x| x.to_string()).unwrap_or("-".into()),
+                            payload.len(),
+                            fnv(payload)
+                        ));
+                    }
+                }
+            }
+        }
+    }
+    // end-to-end: every datagram an application submitted successfully is on the wire exactly
+    // once, bytes unchanged, with the session's own (address, port) as source
+    let mut submitted: BTreeMap<(Ep, Ep, Vec<u8>), i64> = BTreeMap::new();
+    let mut opens: BTreeMap<(usize, usize, usize), (Ep, Ep, Vec<Vec<u8>>)> = BTreeMap::new();
+    for (mi, m) in sc.machines.iter().enumerate() {
+        for a in &m.apps {
+            for (i, act) in a.script.iter().enumerate() {
+                if let ActionKind::Open { local, remote, payloads, .. } = &act.kind {
+                    opens.insert((mi, a.n, i), (*local, *remote, payloads.clone()));
+                }
+            }
+        }
+    }
+    // the session handed to the application carries the datagram's endpoints: an answer sent
+    // through it goes from (A, P) back to the true source
+    let mut expect_session: BTreeMap<usize, (Ep, Ep)> = BTreeMap::new();
+    for e in evs {
+        if let Ev::Demux { cause: Some(c), .. } = &e.ev {
+            let bytes = match &evs[*c].ev {
+                Ev::Wire { bytes, .. } | Ev::Inject { bytes, .. } => Some(bytes),
+                _ => None,
+            };
+            if let Some(Parsed::Datagram { src, dst, .. }) = bytes.map(|b| oracle_parse(b)) {
+                expect_session.insert(e.id, (dst, src));
+            }
+        }
+    }
+    let mut echo_seen: BTreeMap<usize, Vec<(Ep, Ep)>> = BTreeMap::new();
+    for e in evs {
+        if let Ev::Wire { to: None, target: Target::Ipv4, bytes, .. } = &e.ev {
+            if let Parsed::Datagram { src, dst, payload } = oracle_parse(bytes) {
+                if payload.len() == 8 && payload.starts_with(ECHO_TAG) {
+                    let id = u32::from_be_bytes([payload[4], payload[5], payload[6], payload[7]]) as usize;
+                    echo_seen.entry(id).or_default().push((src, dst));
+                }
+            }
+        }
+    }
+    for e in evs {
+        match &e.ev {
+            Ev::Echo { demux, result } => {
+                rep.count(format!("echo.{}", result));
+                if let Some((l, r)) = expect_session.get(demux) {
+                    if result == "ok" {
+                        let mut tag = ECHO_TAG.to_vec();
+                        tag.extend_from_slice(&(*demux as u32).to_be_bytes());
+                        *submitted.entry((*l, *r, tag)).or_insert(0) += 1;
+                        let seen = echo_seen.get(demux).cloned().unwrap_or_default();
+                        if seen != vec![(*l, *r)] {
+                            rep.fail(format!("the session handed up with the datagram {} -> {} sends from/to {:?} (expected {} -> {})", r, l, seen, l, r), "session-endpoints-wrong");
+                        }
+                    }
+                }
+            }
+            Ev::Open { result, .. } => rep.count(format!("open.{}", result)),
+            Ev::Sent { machine, app, act, idx, result, len } => {
+                rep.count(format!("sent.{}", result));
+                rep.count(format!("payload_len.{}", match *len { 0 => "0", 1..=9 => "1-9", 10..=99 => "10-99", 100..=999 => "100-999", _ => "1000+" }));
+                if let Some((l, r, ps)) = opens.get(&(*machine, *app, *act)) {
+                    if result == "ok" {
+                        *submitted.entry((*l, *r, ps[*idx].clone())).or_insert(0) += 1;
+                    }
+                    // MTU clause seen from the application: payload + 28 must fit the link
+                    let slot_net = sc.machines[*machine].routes.iter().filter(|rt| rt.mask_len == 32 && rt.addr == l.addr).chain(sc.machines[*machine].routes.iter().filter(|rt| rt.mask_len == 0)).next().map(|rt| sc.machines[*machine].nets[rt.slot as usize]);
+                    if let Some(n) = slot_net {
+                        let mtu = sc.nets[n].mtu.unwrap_or(u16::MAX) as usize;
+                        let fits = len + 28 <= mtu;
+                        if fits != (result == "ok") {
+                            rep.fail(format!("machine {}: send of {} bytes over MTU {} returned {}", machine, len, mtu, result), "send-result-vs-mtu");
+                        }
+                    }
+                }
+            }
+            Ev::Wire { to: None, target: Target::Ipv4, bytes, .. } => match oracle_parse(bytes) {
+                Parsed::Datagram { src, dst, payload } => *submitted.entry((src, dst, payload)).or_insert(0) -= 1,
+                p => rep.fail(format!("the stack put a frame on the wire that is no clean datagram: {:?}", p), "emitted-malformed"),
+            },
+            _ => {}
+        }
+    }
+    for ((s, d, p), n) in &submitted {
+        if *n != 0 {
+            rep.fail(format!("datagram {} -> {} ({} bytes) submitted-ok minus seen-on-wire = {}", s, d, p.len(), n), "submitted-vs-wire");
+        }
+    }
+    deliveries.sort();
+    rep.line("end", format!("end n={} {}", deliveries.len(), deliveries.join(" ")));
+    let shared = sc.machines.iter().any(|m| m.apps.len() >= 2);
+    let wild = bound.iter().any(|b| b.keys().any(|e| e.addr == ANY || e.addr == BCAST));
+    rep.nontrivial = delivered_any && (shared || wild || dropped_somewhere);
+    rep.count(format!("machines.{}", sc.machines.len()));
+    rep.count(format!("nets.{}", sc.nets.len()));
+    rep.count(if sc.machines.iter().any(|m| m.arp) { "arp.some" } else { "arp.none" });
+    rep.count(match sc.mode { RtMode::Paused => "mode.paused", RtMode::MultiThread(_) => "mode.multi_thread" });
+    rep.count(format!("status.{}", res.status));
+}
+
+/// All 2-application x {exact, wildcard, broadcast}^2 binding combinations on one machine, each
+/// hit by datagrams to (A,P), (other address,P), (255.255.255.255,P) and (A,P+1): 36 scenarios.
+const GRID: u64 = 36;
+fn grid_scenario(i: u64) -> Scenario {
+    let a = own_addr(0);
+    let p = 5000u16;
+    let kind = |k: u64| match k {
+        0 => Ep::new(a, p),
+        1 => Ep::new(ANY, p),
+        _ => Ep::new(BCAST, p),
+    };
+    let (k0, k1, d) = (i % 3, (i / 3) % 3, (i / 9) % 4);
+    let dst = match d {
+        0 => Ep::new(a, p),
+        1 => Ep::new(FOREIGN, p),
+        2 => Ep::new(BCAST, p),
+        _ => Ep::new(a, p + 1),
+    };
+    let receiver = MachineSpec {
+        nets: vec![0],
+        udp: true,
+        apps: vec![
+            AppSpec { n: 0, script: vec![Action { at: None, kind: ActionKind::Listen(kind(k0)) }], echo: true },
+            AppSpec { n: 1, script: vec![Action { at: None, kind: ActionKind::Listen(kind(k1)) }], echo: true },
+        ],
+        ..Default::default()
+    };
+    let sender = MachineSpec {
+        nets: vec![0],
+        udp: true,
+        routes: vec![Route { addr: 0, mask_len: 0, slot: 0, mac: None }],
+        apps: vec![AppSpec {
+            n: 0,
+            script: vec![Action { at: Some(1000), kind: ActionKind::Open { local: Ep::new(own_addr(1), 40000), remote: dst, listen: false, payloads: vec![vec![], vec![i as u8; 7]] } }],
+            echo: false,
+        }],
+        ..Default::default()
+    };
+    Scenario { nets: vec![NetSpec::default()], machines: vec![receiver, sender], mode: RtMode::Paused, duration_us: 1_000_000 }
+}
+
+fn cfg_lines_of(spec: &str) -> (Vec<String>, u64) {
+    let mut it = spec.lines();
+    let head = it.next().unwrap_or("");
+    let w: Vec<&str> = head.split_whitespace().collect();
+    match w.as_slice() {
+        ["grid", i] => {
+            let mut l = grid_scenario(i.parse().unwrap_or(0)).to_lines();
+            l.push("planner seed=0".into());
+            (l, 0)
+        }
+        ["gen", _id, seed] => {
+            let seed: u64 = seed.parse().unwrap_or(1);
+            let mut l = gen_scenario(seed).to_lines();
+            l.push(format!("planner seed={}", seed));
+            (l, seed)
+        }
+        _ => {
+            let l: Vec<String> = it.filter(|l| l.starts_with("cfg ")).map(|l| l[4..].to_string()).collect();
+            let seed = l.iter().find_map(|x| x.strip_prefix("planner seed=").and_then(|v| v.parse().ok())).unwrap_or(1);
+            (l, seed)
+        }
+    }
+}
 
 pub fn run(args: &Args) {
-    eprintln!("hfull: {} not implemented yet", args.prop);
-    std::process::exit(2);
+    if is_worker(args) {
+        worker_loop(|spec| {
+            let (lines, seed) = cfg_lines_of(spec);
+            execute(&lines, seed)
+        });
+        return;
+    }
+    let mut out = Out::new(&args.out);
+    let specs: Vec<String> = if let Some(rp) = &args.replay {
+        vec![format!("replay\n{}", read_ops(rp).join("\n"))]
+    } else {
+        let mut rng = Rng::new(args.seed);
+        (0..GRID).map(|i| format!("grid {}", i)).chain((0..args.cases).map(|c| format!("gen {} {}", c, rng.next() >> 1))).collect()
+    };
+    let workers = args.extra.get("workers").and_then(|s| s.parse().ok()).unwrap_or_else(default_workers);
+    let outcomes = run_cases(&args.prop, &specs, workers, 25, 120);
+    for (c, o) in outcomes.iter().enumerate() {
+        out.begin_case(c as u64);
+        match o {
+            CaseOutcome::Done(rep) => rep.emit(&mut out),
+            CaseOutcome::Died { stderr, .. } => {
+                let (lines, _) = cfg_lines_of(&specs[c]);
+                for l in &lines {
+                    out.line(&format!("cfg {}", l), "cfg");
+                }
+                let (line, ident) = died_ident(o);
+                out.line("crash", &line);
+                out.mark_nontrivial();
+                out.fail(&format!("the simulation process died while running this scenario: {} :: {}", ident, stderr.lines().take(6).collect::<Vec<_>>().join(" / ")), &ident);
+            }
+        }
+        out.end_case();
+    }
+    out.finish(RULE);
 }
